@@ -209,7 +209,7 @@ def judge(entry, token, plan, keymode, payload_arg=None, none_allowed=False, oth
     if got_payload != want:
         return ("payload-differs", f"{entry} returned payload {str(got_payload)[:80]!r}; the signed payload is {str(want)[:80]!r}")
     ref_prot = [m["protected"] for m in r["members"]]
-    if not is_claims and [p or {} for p in got_prot] != ref_prot:
+    if [p or {} for p in got_prot] != ref_prot:
         return ("protected-header-differs", f"{entry} returned protected headers {got_prot!r}; signed: {ref_prot!r}")
     return "ok"
 
@@ -724,8 +724,12 @@ def run_shard(ctx, spec):
         algs = [m["alg"] for m in mplan["members"]]
         label = (tuple(algs), mplan["ser"], mplan["b64"], case["minter"])
         # base token must be accepted by every applicable entry point
+        try:
+            pl_is_object = isinstance(json.loads(pl), dict)
+        except ValueError:
+            pl_is_object = False
         for e in ents:
-            if e.startswith("jwt.decode") and entry != "jwt.decode":
+            if e.startswith("jwt.decode") and not pl_is_object:
                 continue
             if e == "rfc7797.deserialize_compact" and mplan["b64"] is False and isinstance(token, str) and ".." in token and pl:
                 continue  # detached: payload must be handed over
